@@ -172,19 +172,24 @@ func (h265dp *h265Depacketizer) depacketizeFu(packet *Packet) (err error) {
 	return
 }
 
+// unvalidated 已保存的参数集还未被验证过（尚未就绪，也没有从 sdp 的参数集解出过图像尺寸）
+func (h265dp *h265Depacketizer) unvalidated() bool {
+	return !h265dp.metaReady && h265dp.meta.Width == 0
+}
+
 func (h265dp *h265Depacketizer) writeFrame(rtpTimestamp uint32, frame *codec.Frame) error {
 	nalType := (frame.Payload[0] >> 1) & 0x3f
 	switch nalType {
 	case hevc.NalVps:
-		if len(h265dp.meta.Vps) == 0 || !h265dp.metaReady {
+		if len(h265dp.meta.Vps) == 0 || h265dp.unvalidated() {
 			h265dp.meta.Vps = frame.Payload
 		}
 	case hevc.NalSps:
-		if len(h265dp.meta.Sps) == 0 || !h265dp.metaReady {
+		if len(h265dp.meta.Sps) == 0 || h265dp.unvalidated() {
 			h265dp.meta.Sps = frame.Payload
 		}
 	case hevc.NalPps:
-		if len(h265dp.meta.Pps) == 0 || !h265dp.metaReady {
+		if len(h265dp.meta.Pps) == 0 || h265dp.unvalidated() {
 			h265dp.meta.Pps = frame.Payload
 		}
 	}
